@@ -7,7 +7,8 @@
 //
 // Transformations (DESIGN.md §3.1): T1 import seams, T2 go/chan rewriting,
 // T3 yields in methods of nodeLoc/itemLoc/node, T4 introspection file,
-// T5 sorted iteration over string-keyed maps, T6 publication hook in rootCAS.
+// T5 sorted iteration over string-keyed maps, T6 publication hook in rootCAS,
+// T8 copy-on-write discipline of the collections map.
 package main
 
 import (
@@ -49,8 +50,8 @@ var guardedFields = map[string]map[string]bool{
 var allocatorFuncs = map[string]bool{"mkRootNodeLoc": true, "mkRootNodeLocVerifOrig": true, "freeRootNodeLoc": true}
 
 type stats struct {
-	Imports, GoStmts, ChanTypes, MakeChans, Sends, Recvs, Closes, RangeChans, Yields, MapRanges, CASHooks, Accesses int
-	Unsupported                                                                                                     []string
+	Imports, GoStmts, ChanTypes, MakeChans, Sends, Recvs, Closes, RangeChans, Yields, MapRanges, CASHooks, Accesses, MapWrites, MapHooks int
+	Unsupported                                                                                                                          []string
 }
 
 type rewriter struct {
@@ -210,6 +211,7 @@ func (rw *rewriter) file(f *ast.File, yields bool) {
 	// T6 must run before bodies are rewritten (it only renames)
 	rw.casHook(f)
 	rw.allocHook(f)
+	rw.getCollHook(f)
 	// statements and expressions
 	for _, d := range f.Decls {
 		switch d := d.(type) {
@@ -349,6 +351,16 @@ func (rw *rewriter) guardBlock(b *ast.BlockStmt) {
 				rw.st.Accesses++
 			}
 		}
+		// T8: writes to a collections map
+		if m := rw.collMapWritten(s); m != nil {
+			var buf bytes.Buffer
+			format.Node(&buf, rw.fset, m)
+			if x, err := parser.ParseExpr(buf.String()); err == nil {
+				out = append(out, &ast.ExprStmt{X: &ast.CallExpr{Fun: sel("vsched", "MapWrite"),
+					Args: []ast.Expr{x, &ast.BasicLit{Kind: token.STRING, Value: fmt.Sprintf("%q", rw.fset.Position(s.Pos()).String())}}}})
+				rw.st.MapWrites++
+			}
+		}
 		out = append(out, s)
 		// nested blocks
 		ast.Inspect(s, func(n ast.Node) bool {
@@ -369,6 +381,71 @@ func (rw *rewriter) guardBlock(b *ast.BlockStmt) {
 		})
 	}
 	b.List = out
+}
+
+// isCollMap reports whether e is a map[string]*Collection.
+func (rw *rewriter) isCollMap(e ast.Expr) bool {
+	tv, ok := rw.info.Types[e]
+	if !ok || tv.Type == nil {
+		return false
+	}
+	m, ok := tv.Type.Underlying().(*types.Map)
+	if !ok {
+		return false
+	}
+	p, ok := m.Elem().(*types.Pointer)
+	if !ok {
+		return false
+	}
+	nt, ok := p.Elem().(*types.Named)
+	return ok && nt.Obj().Name() == "Collection"
+}
+
+// collMapWritten returns the map expression when s stores into or deletes
+// from a collections map (T8), else nil.
+func (rw *rewriter) collMapWritten(s ast.Stmt) ast.Expr {
+	switch x := s.(type) {
+	case *ast.AssignStmt:
+		for _, l := range x.Lhs {
+			if ix, ok := l.(*ast.IndexExpr); ok && rw.isCollMap(ix.X) {
+				return ix.X
+			}
+		}
+	case *ast.ExprStmt:
+		if c, ok := x.X.(*ast.CallExpr); ok && len(c.Args) == 2 {
+			if id, ok := c.Fun.(*ast.Ident); ok && rw.isBuiltin(id, "delete") && rw.isCollMap(c.Args[0]) {
+				return c.Args[0]
+			}
+		}
+	}
+	return nil
+}
+
+// getCollHook wraps Store.getColl: every map that has been visible through it
+// is published, i.e. must never change again (T8).
+func (rw *rewriter) getCollHook(f *ast.File) {
+	for _, d := range f.Decls {
+		fd, ok := d.(*ast.FuncDecl)
+		if !ok || fd.Recv == nil || fd.Name.Name != "getColl" || recvBase(fd.Recv.List[0].Type) != "Store" ||
+			fd.Type.Results == nil || len(fd.Type.Results.List) != 1 || len(fd.Recv.List[0].Names) != 1 || len(fd.Type.Params.List) != 0 {
+			continue
+		}
+		recvName := fd.Recv.List[0].Names[0].Name
+		wrapper := &ast.FuncDecl{
+			Recv: fd.Recv, Name: ast.NewIdent("getColl"), Type: fd.Type,
+			Body: &ast.BlockStmt{List: []ast.Stmt{
+				&ast.AssignStmt{Lhs: []ast.Expr{ast.NewIdent("_vr")}, Tok: token.DEFINE,
+					Rhs: []ast.Expr{&ast.CallExpr{Fun: &ast.SelectorExpr{X: ast.NewIdent(recvName), Sel: ast.NewIdent("getCollVerifOrig")}}}},
+				&ast.IfStmt{Cond: &ast.BinaryExpr{X: ast.NewIdent("_vr"), Op: token.NEQ, Y: ast.NewIdent("nil")}, Body: &ast.BlockStmt{List: []ast.Stmt{
+					&ast.ExprStmt{X: &ast.CallExpr{Fun: sel("vsched", "MapPublish"), Args: []ast.Expr{&ast.StarExpr{X: ast.NewIdent("_vr")}}}}}}},
+				&ast.ReturnStmt{Results: []ast.Expr{ast.NewIdent("_vr")}},
+			}},
+		}
+		fd.Name = ast.NewIdent("getCollVerifOrig")
+		f.Decls = append(f.Decls, wrapper)
+		rw.st.MapHooks++
+		return
+	}
 }
 
 // casHook renames method rootCAS of Collection to rootCASVerifOrig and adds a
